@@ -6,7 +6,7 @@ PID = "C01"
 
 def run(tier, seed, only=None):
     cfgs = [req.Cfg("transformed-ram"), req.Cfg("initial-ram", ram="initial-ram")]
-    jobs = [(c, cfgs) for c in corpus.corpus(tier, extra=("systematic",))]
+    jobs = [(c, cfgs) for c in corpus.corpus(tier, extra=("systematic",), deepen=2)]
     res = rcheck.run_jobs(PID, tier, jobs, only=(None if only == "aggregate-kernels" else only),
                            what="For each corpus program, the RAM that the real souffle emits (before and after RAM optimisation) is "
                                 "executed symbolically over a symbolic fact database and z3 decides that every output relation equals "
